@@ -199,6 +199,7 @@ type heapInfo struct {
 type ctx struct {
 	cellRootType  map[int]types.Type
 	cellAlloc     map[int]*ssa.Alloc
+	curIter       val // value of ghost_iter() while a loop invariant is evaluated
 	allocated     []term
 	allocFrom     int
 	lastStore     map[string][2]term
@@ -1473,6 +1474,9 @@ func (x *ctx) run(st *state, fr *frame, b *ssa.BasicBlock, idx int, prev *ssa.Ba
 				for _, e := range in.Results {
 					r.fields = append(r.fields, x.get(fr, st, e))
 				}
+			}
+			if x.spec == 0 && x.con != nil && len(x.con.Sites[fr.fn.Name()+".return"]) > 0 && (fr.top || (fr.fn.Parent() != nil && closureOf(fr.fn, x.fn))) {
+				x.siteAssertionsAt(st, fr, b, "return", true)
 			}
 			if fr.top {
 				x.paths++
